@@ -506,6 +506,12 @@ def ext_exprs(rng):
                 ("binop", "eq", ("record", [("a", dec(S("1.0"))), ("b", h)]), ot["record"]),
                 ("getattr", ("record", [("a", dec(S("1.0"))), ("b", h)]), "b"),
                 ("hasattr", ("record", [("a", dec(S("bad"))), ("b", h)]), "b")]
+    # a residual record that contains a call which may still fail is NOT projectable: projecting a
+    # sibling attribute out of it (or answering `has`) would hide the error
+    for h in ut["string"]:
+        rec = ("record", [("a", dec(h)), ("b", L(1))])
+        out += [("binop", "eq", ("getattr", rec, "b"), L(1)), ("hasattr", rec, "b"), ("unop", "not", ("hasattr", rec, "zz")),
+                ("binop", "eq", ("getattr", ("record", [("a", ("ext", "ip", [h])), ("b", L(1))]), "b"), L(1))]
     return out
 
 
